@@ -486,9 +486,54 @@ def error_semantics_rule(ck, facts):
     ck.floor("R13.8", "Result-producing calls in the evaluator core", results, 20)
 
 
+def value_class_rule(ck, facts):
+    """R13.11: `=` between values of two different value classes is a type error, not `false`: on every path of
+    SparqlValue::sparql_eq on which the two operands are different variants of SparqlValue the result is None
+    (Some(false) would make `!(?o = "1")` / `?o != 1` keep rows that must be dropped)."""
+    fns = facts.find_fns(crate="sophia_sparql", name_re=r"^value::SparqlValue::sparql_eq$")
+    if len(fns) != 1:
+        ck.bad("R13.11", "R13.11@sparql_eq#anchor", "anchor-missing: SparqlValue::sparql_eq (%d)" % len(fns))
+        return
+    fn = fns[0]
+
+    def on_stmt(st):
+        if st[0] == "=" and st[1] == [0]:
+            if st[2][0] == "agg" and st[2][1].get("def") == "core::option::Option":
+                return "ret:" + st[2][1]["vname"]
+            return "ret:other"
+        return None
+
+    def on_call(t):
+        return "ret:call" if t["dest"] == [0] else None
+    try:
+        paths = enumerate_paths(fn, 0, on_call, on_stmt=on_stmt, max_paths=3000)
+    except CheckError as e:
+        ck.bad("R13.11", "R13.11@sparql_eq#shape", str(e), fn.loc)
+        return
+    mixed = 0
+    for conds, toks in paths:
+        v = {}
+        for d, outcome, src in conds:
+            if src and src[0] == "param" and not src[2] and isinstance(outcome, str):
+                v.setdefault(src[1], outcome)
+        if 1 in v and 2 in v and not (set(v[1].split("|")) & set(v[2].split("|"))):
+            mixed += 1
+            rets = [t for t in toks if isinstance(t, str) and t.startswith("ret:")]
+            if not rets or rets[-1] != "ret:None":
+                ck.bad("R13.11", "R13.11@sparql_eq#mixed-classes:%s/%s" % (v[1], v[2]),
+                       "sparql_eq answers %s for a %s compared with a %s: values of different value classes are not comparable, the "
+                       "result must be the type error None" % (rets[-1] if rets else "?", v[1], v[2]), fn.loc)
+                return
+    if mixed:
+        ck.ok("R13.11", "sparql_eq: None (type error) on all %d paths with operands of different value classes" % mixed)
+    else:
+        ck.bad("R13.11", "R13.11@sparql_eq#shape", "no path of sparql_eq distinguishes the value classes of its two operands", fn.loc)
+
+
 def run(ck, facts, tier):
     facts.require_crates(["sophia_sparql"])
     error_semantics_rule(ck, facts)
+    value_class_rule(ck, facts)
     select_rule(ck, facts)
     query_rule(ck, facts)
     filter_rule(ck, facts)
